@@ -85,3 +85,5 @@ func vC08Handoff(n int) {
 
 func vhC08_handoff_n2() { vC08Handoff(2) }
 func vhC08_handoff_n3() { vC08Handoff(3) }
+func vhC08_handoff_n4() { vC08Handoff(4) }
+func vhC08_handoff_n5() { vC08Handoff(5) }
